@@ -474,6 +474,10 @@ func ruleTxnBatcherValidation(w *core.World, r *core.Report) {
 					if sl, ok := ia.X.(*ssa.Slice); ok && sl.X == keysV && isConstInt(1)(sl.Low) && sl.High == nil && forwardRangeIndex(ia.Index) {
 						rest = true
 					}
+					// or an index loop from 1 to len(keys)
+					if ia.X == keysV && indexCoversFrom(ia.Index, 1, keysV) {
+						rest = true
+					}
 				}
 				return true
 			})
@@ -590,4 +594,41 @@ func isSeenFlag(ph *ssa.Phi) bool {
 	}
 	walk(ph)
 	return ok && hasT && hasF
+}
+
+
+// indexCoversFrom: idx is the variable of `for i := from; i < len(s); i++`.
+func indexCoversFrom(idx ssa.Value, from int64, s ssa.Value) bool {
+	ph, ok := idx.(*ssa.Phi)
+	if !ok || len(ph.Edges) != 2 {
+		return false
+	}
+	head := ph.Block()
+	init, step := false, false
+	for i, e := range ph.Edges {
+		if head.Dominates(head.Preds[i]) {
+			if b, isB := e.(*ssa.BinOp); isB && b.Op == token.ADD && b.X == ssa.Value(ph) && isConstInt(1)(b.Y) {
+				step = true
+			}
+		} else if k, isK := core.ConstInt(e); isK && k == from {
+			init = true
+		}
+	}
+	if !init || !step || len(head.Instrs) == 0 {
+		return false
+	}
+	iff, ok := head.Instrs[len(head.Instrs)-1].(*ssa.If)
+	if !ok {
+		return false
+	}
+	c, ok := core.AsCmp(iff.Cond, true)
+	if !ok || c.Op != token.LSS || c.X != ssa.Value(ph) {
+		return false
+	}
+	call, ok := core.Unwrap(c.Y).(*ssa.Call)
+	if !ok {
+		return false
+	}
+	b, ok := call.Call.Value.(*ssa.Builtin)
+	return ok && b.Name() == "len" && len(call.Call.Args) == 1 && call.Call.Args[0] == s
 }
